@@ -3,5 +3,9 @@ CONSTANTS W = 2
           WS = 1
           Deep = {"int8", "N1"}
           OptSet = {"default", "useall", "export", "exporttop", "tng", "tng_export", "tng_exporttop"}
+          Reps = 20
+          RepW = 0
+          Which = "all"
+          MutualFull = FALSE
 INVARIANTS Emit EmitPoints
 CHECK_DEADLOCK FALSE
